@@ -1,6 +1,8 @@
 package main
 
 import (
+	"fmt"
+	"go/types"
 	"sort"
 	"strings"
 
@@ -10,7 +12,7 @@ import (
 func init() { props["C32"] = checkC32 }
 
 func checkC32(r *Run) {
-	r.Explain = "C32: (R1) the strand-owned state of gnet.ConnectionPool (the connection maps and the id counter) is touched only inside closures passed to pool.strand, in functions called only from such closures, or in the reviewed start-up/shutdown functions; (R2) pool.listener is accessed only with listenerLock held; (R3) a variable written by a strand closure is read by the caller only when strand returned nil (on shutdown the closure may still be running); (R4) shutdown terminates: every goroutine counted by a WaitGroup calls Done on all exits, channels that workers range over are closed on all exits of their producer, every buffered error channel can absorb all blocking sends of its sender goroutines, and strand.Strand returns when quit is closed in both of its wait loops."
+	r.Explain = "(R4+) strand.Strand returns the caller's pool-closed error whenever it leaves a wait on the quit channel and returns the closure's result only after the done channel was closed; C32: (R1) the strand-owned state of gnet.ConnectionPool (the connection maps and the id counter) is touched only inside closures passed to pool.strand, in functions called only from such closures, or in the reviewed start-up/shutdown functions; (R2) pool.listener is accessed only with listenerLock held; (R3) a variable written by a strand closure is read by the caller only when strand returned nil (on shutdown the closure may still be running); (R4) shutdown terminates: every goroutine counted by a WaitGroup calls Done on all exits, channels that workers range over are closed on all exits of their producer, every buffered error channel can absorb all blocking sends of its sender goroutines, and strand.Strand returns when quit is closed in both of its wait loops."
 	r.NotDec = "races outside the ownership discipline (e.g. on Connection.Buffer), liveness under real network stalls"
 	owned := []string{"pool", "addresses", "defaultOutgoingConnections", "outgoingConnections", "incomingConnections", "connID"}
 	res := r.P.strandContext("daemon/gnet", "ConnectionPool", owned, "daemon/gnet.ConnectionPool.strand", map[string]string{
@@ -131,6 +133,82 @@ func checkC32(r *Run) {
 			}
 		}
 		r.Check("C32-R4", "strand.Strand: both waits are selects", r.P.Pos(fn.Pos()), n >= 2, "")
+		// what each wait returns: leaving on quit returns the caller's quit error; the closure's result is read
+		// only after the done channel was closed (the closure finished: no race on err, no nil for an unfinished call)
+		ff := r.P.Facts(fn)
+		sels := map[string]*ssa.Select{}
+		for _, b := range fn.Blocks {
+			for _, in := range b.Instrs {
+				if sl, ok := in.(*ssa.Select); ok {
+					sels["select@"+sl.Name()] = sl
+				}
+			}
+		}
+		nRet := 0
+		for _, e := range ff.Exits() {
+			if e.Ret == nil || len(e.Ret.Results) != 1 {
+				continue
+			}
+			nRet++
+			// deciding select: the selected-case atom whose select is dominated by all the others
+			var dec *ssa.Select
+			decIdx := -1
+			for _, a := range ff.Must(e.Block) {
+				m := globCapture("select@*#0 == *", a.S)
+				if m == nil || strings.HasPrefix(a.S, "forall") {
+					continue
+				}
+				sl := sels["select@"+m[0]]
+				var k int
+				if nn, _ := fmt.Sscanf(m[1], "%d", &k); sl == nil || nn != 1 {
+					continue
+				}
+				if dec == nil || dec.Block().Dominates(sl.Block()) {
+					dec, decIdx = sl, k
+				}
+			}
+			t := ff.Term(e.Ret.Results[0])
+			role := ""
+			if dec != nil && decIdx >= 0 && decIdx < len(dec.States) {
+				// quit = the chan struct{} parameter; done = a channel created in this function (closed by the request closure)
+				ch := dec.States[decIdx].Chan
+				if prm, ok := ch.(*ssa.Parameter); ok {
+					if ct, ok := prm.Type().Underlying().(*types.Chan); ok {
+						if st, ok := ct.Elem().Underlying().(*types.Struct); ok && st.NumFields() == 0 {
+							role = "quit"
+						}
+					}
+				} else if _, isMake := ch.(*ssa.MakeChan); isMake {
+					role = "done"
+				} else if u, ok := ch.(*ssa.UnOp); ok {
+					if al, ok := u.X.(*ssa.Alloc); ok {
+						for _, rf := range *al.Referrers() {
+							if st, ok := rf.(*ssa.Store); ok && st.Addr == al {
+								if _, isMake := st.Val.(*ssa.MakeChan); isMake {
+									role = "done"
+								}
+								if prm, ok := st.Val.(*ssa.Parameter); ok {
+									if ct, ok := prm.Type().Underlying().(*types.Chan); ok {
+										if stt, ok := ct.Elem().Underlying().(*types.Struct); ok && stt.NumFields() == 0 {
+											role = "quit"
+										}
+									}
+								}
+							}
+						}
+					}
+				}
+			}
+			switch role {
+			case "quit":
+				r.Check("C32-R4", "strand.Strand: leaving a wait on quit returns the pool-closed error given by the caller", r.P.Pos(e.Ret.Pos()), t == "$5", "returns "+t+" (the closure may still be running: its result is not final and reading it races with the strand goroutine)")
+			case "done":
+				r.Check("C32-R4", "strand.Strand: the closure's result is returned after done was closed", r.P.Pos(e.Ret.Pos()), t == "local:err", "returns "+t)
+			default:
+				r.Check("C32-R4", "strand.Strand: every return is decided by the quit or the done case", r.P.Pos(e.Ret.Pos()), false, "return of "+t+" not under a quit/done case")
+			}
+		}
+		r.Check("C32-R4", "strand.Strand: return sites", "", nRet == 3, fmt.Sprint(nRet))
 	}
 }
 
